@@ -321,3 +321,15 @@ var (
 	ErrNoSpace error = syscall.ENOSPC
 	ErrAccess  error = syscall.EACCES
 )
+
+// Resolve returns the physical path abs resolves to (following symlinks), or
+// abs itself when it cannot be resolved.
+func (w *World) Resolve(abs string) string {
+	w.mu.Lock()
+	defer w.mu.Unlock()
+	_, p, err := w.walk(abs, true)
+	if err != nil {
+		return abs
+	}
+	return p
+}
